@@ -3,6 +3,7 @@ package main
 import (
 	"fmt"
 	"go/token"
+	"sort"
 	"strings"
 
 	"golang.org/x/tools/go/ssa"
@@ -278,74 +279,112 @@ func runC20(r *Run, p *Prog) {
 
 func checkSetupV3(r *Run, p *Prog, ro *Roles, act *ssa.Function) {
 	T := ro.T
+	// the listener setup: the nearest exported functions above the activation function (Bind), analysed in their
+	// inlined views with the activation function kept as a call - wherever the setup's steps live (the function that
+	// consults activation, a sibling helper called before it, the exported entry itself), they are part of the view
+	var entries []*ssa.Function
+	seen := map[*ssa.Function]bool{act: true}
+	work := []*ssa.Function{act}
+	for len(work) > 0 {
+		g := work[0]
+		work = work[1:]
+		for _, cs := range ro.CG.Callers[g] {
+			c := cs.Fn
+			for c.Parent() != nil {
+				c = c.Parent()
+			}
+			if origFn(c) != c || seen[c] || !p.InRepo(c) {
+				continue
+			}
+			seen[c] = true
+			if c.Object() != nil && c.Object().Exported() {
+				entries = append(entries, c)
+			} else {
+				work = append(work, c)
+			}
+		}
+	}
+	sort.Slice(entries, func(i, j int) bool { return entries[i].Pos() < entries[j].Pos() })
+	isAddrPath := func(name string) bool {
+		return name == "os.Remove" || name == "os.RemoveAll" || name == "syscall.Unlink" || name == "varlink.listen" || strings.HasPrefix(name, "net.Listen") || name == "net.ListenConfig.Listen"
+	}
 	n := 0
-	for _, f := range p.FuncsOf(pkgVarlink) {
+	for _, e := range entries {
+		f := p.Inlined(e, func(c *ssa.Function) bool { return c == act })
+		ro.CG.AddView(f)
+		fn := shortName(f)
+		var acs []*ssa.Call
 		for _, cs := range callsIn(f, false) {
 			if staticTarget(cs.Common) != act {
 				continue
 			}
-			ac, ok := cs.Instr.(*ssa.Call)
-			if !ok {
-				continue
+			if ac, ok := cs.Instr.(*ssa.Call); ok {
+				acs = append(acs, ac)
 			}
-			n++
-			fn := shortName(f)
-			at := T.T(ac)
-			// address path only with activation == nil
-			for _, b := range f.Blocks {
-				for _, in := range b.Instrs {
+		}
+		if len(acs) == 0 {
+			continue
+		}
+		n++
+		at := T.T(acs[0])
+		// address path only with activation == nil
+		for _, b := range f.Blocks {
+			for _, in := range b.Instrs {
+				c, ok := in.(*ssa.Call)
+				if !ok {
+					continue
+				}
+				name := calleeName(&c.Call)
+				if !isAddrPath(name) {
+					continue
+				}
+				r.Ob("V3", fn, name+" only when there is no activation listener", c.Pos(), hasFact(T.FactsAt(b), "EQ", at, "nil"),
+					"the address is used (a socket file removed, an address bound) although an inherited listening socket may be available: the address argument must be ignored under socket activation")
+			}
+		}
+		// the activation listener is stored unchanged and never closed
+		stored := false
+		for _, b := range f.Blocks {
+			for _, in := range b.Instrs {
+				if st, ok := in.(*ssa.Store); ok && isStoreToServiceField(in, svcF.Listener) {
+					var vals []ssa.Value
+					var walk func(v ssa.Value, d int)
+					walk = func(v ssa.Value, d int) {
+						if ph, ok := v.(*ssa.Phi); ok && d < 4 {
+							for _, e := range ph.Edges {
+								walk(e, d+1)
+							}
+							return
+						}
+						vals = append(vals, v)
+					}
+					walk(st.Val, 0)
+					for _, v := range vals {
+						if c, ok := v.(*ssa.Call); ok && staticTarget(&c.Call) == act {
+							stored = true
+						}
+					}
+				}
+				if c, ok := in.(*ssa.Call); ok && c.Call.IsInvoke() && c.Call.Method.Name() == "Close" && T.T(c.Call.Value) == at {
+					r.Ob("V3", fn, "the activation listener is never closed by the setup", c.Pos(), false, "the inherited socket is closed and the address is bound instead")
+				}
+			}
+		}
+		r.Ob("V3", fn, "a non-nil activation listener becomes the Service's listener unchanged", acs[0].Pos(), stored, "the activation result is not what is stored as listener")
+		// on the non-nil edge the store is reached without passing the address path
+		for _, b := range f.Blocks {
+			for _, s := range b.Succs {
+				if !hasFact(T.edgeFactsOn(b, s), "NE", at, "nil") {
+					continue
+				}
+				bad, w := reachFromBlock(f, s, func(in ssa.Instruction) bool {
 					c, ok := in.(*ssa.Call)
 					if !ok {
-						continue
+						return false
 					}
-					name := calleeName(&c.Call)
-					isAddrPath := name == "os.Remove" || name == "varlink.listen" || name == "net.Listen" || name == "net.ListenConfig.Listen"
-					if !isAddrPath {
-						continue
-					}
-					r.Ob("V3", fn, name+" only when there is no activation listener", c.Pos(), hasFact(T.FactsAt(b), "EQ", at, "nil"),
-						"the address is bound although an inherited listening socket may be available: the address argument must be ignored under socket activation")
-				}
-			}
-			// the activation listener is stored unchanged and never closed
-			stored := false
-			for _, b := range f.Blocks {
-				for _, in := range b.Instrs {
-					if st, ok := in.(*ssa.Store); ok && isStoreToServiceField(in, svcF.Listener) {
-						var vals []ssa.Value
-						if ph, ok := st.Val.(*ssa.Phi); ok {
-							vals = ph.Edges
-						} else {
-							vals = []ssa.Value{st.Val}
-						}
-						for _, v := range vals {
-							if v == ssa.Value(ac) {
-								stored = true
-							}
-						}
-					}
-					if c, ok := in.(*ssa.Call); ok && c.Call.IsInvoke() && c.Call.Method.Name() == "Close" && T.T(c.Call.Value) == at {
-						r.Ob("V3", fn, "the activation listener is never closed by the setup", c.Pos(), false, "the inherited socket is closed and the address is bound instead")
-					}
-				}
-			}
-			r.Ob("V3", fn, "a non-nil activation listener becomes the Service's listener unchanged", ac.Pos(), stored, "the activation result is not what is stored as listener")
-			// on the non-nil edge the store is reached without passing the address path
-			for _, b := range f.Blocks {
-				for _, s := range b.Succs {
-					if !hasFact(T.edgeFactsOn(b, s), "NE", at, "nil") {
-						continue
-					}
-					bad, w := reachFromBlock(f, s, func(in ssa.Instruction) bool {
-						c, ok := in.(*ssa.Call)
-						if !ok {
-							return false
-						}
-						nm := calleeName(&c.Call)
-						return nm == "os.Remove" || nm == "varlink.listen" || strings.HasPrefix(nm, "net.Listen")
-					}, nil)
-					r.Ob("V3", fn, "with an activation listener the address path is unreachable", p.InstrPos(b.Instrs[len(b.Instrs)-1]), !bad, "", witnessPos(p, w)...)
-				}
+					return isAddrPath(calleeName(&c.Call))
+				}, nil)
+				r.Ob("V3", fn, "with an activation listener the address path is unreachable", p.InstrPos(b.Instrs[len(b.Instrs)-1]), !bad, "", witnessPos(p, w)...)
 			}
 		}
 	}
